@@ -406,8 +406,5 @@ func checkC08(c *Ctx) int {
 	run12.Sample(map[string]interface{}{"allocations_checked": edges})
 	fmt.Printf("C08: tlc %d states; %d transitions replayed, %d restarts in %.1fs; violations=%d (C12 label violations=%d)\n",
 		states, edges, restarts, since(t0), run.Violations(), run12.Violations())
-	if c.Name == "C08" {
-		return run.Finish()
-	}
-	return run12.Finish()
+	return run.Finish()
 }
